@@ -23,6 +23,13 @@ type fnInfo struct {
 	n   int
 }
 
+// fallThrough is returned by an intrinsic that wants the real function body to be interpreted instead.
+type fallThroughT struct{}
+
+var fallThrough = &fallThroughT{}
+
+func declined() (Value, bool) { return Value{K: KInvalid, R: fallThrough}, true }
+
 type methKey struct {
 	t types.Type
 	m *types.Func
@@ -106,10 +113,13 @@ type Interp struct {
 	Unwind       int
 	StubsHit     map[string]int
 	initMode     bool
+	inInitTry    bool
 	ctxs         []*ctxSt
 	exploreOff   bool
 	TimerAnywhere bool
 	race         raceState
+	keyCount     int
+	pkgInited    map[*ssa.Package]bool
 }
 
 func NewInterp(prog *ssa.Program, ctx *smt.Ctx, sol *smt.Solver) *Interp {
@@ -128,6 +138,8 @@ func (in *Interp) resetRun() {
 	in.ranks = nil
 	in.nameCnt = map[string]int{}
 	in.ctxs = nil
+	in.pkgInited = map[*ssa.Package]bool{}
+	in.keyCount = 0
 	in.race = raceState{cells: map[interface{}]*shadow{}, objVC: map[interface{}]*vclock{}, reported: map[string]bool{}}
 	in.exploreOff = false
 	in.inputs = nil
@@ -167,7 +179,40 @@ func unsupported(f string, a ...interface{}) {
 	panic(inconclusive{"unsupported: " + fmt.Sprintf(f, a...)})
 }
 
+// lazyInitPkgs: interpreted standard-library packages whose package-level tables must hold their real
+// initial values; their initialiser is executed (own globals only) when one of their globals is first read.
+var lazyInitPkgs = map[string]bool{"unicode/utf8": true, "unicode": true, "strconv": true, "strings": true, "bytes": true,
+	"sort": true, "path": true, "math/bits": true, "encoding/hex": true, "container/heap": true, "container/list": true, "unicode/utf16": true}
+
+func (in *Interp) ensurePkgInit(g *ssa.Global) {
+	if g.Pkg == nil || in.isModulePkg(g.Pkg) || !lazyInitPkgs[g.Pkg.Pkg.Path()] || in.pkgInited[g.Pkg] || in.cur == nil {
+		return
+	}
+	in.pkgInited[g.Pkg] = true
+	g.Pkg.Build()
+	initFn := g.Pkg.Func("init")
+	if initFn == nil || initFn.Blocks == nil {
+		return
+	}
+	savedMode := in.initMode
+	in.initMode = true
+	gr := in.cur
+	saved := gr.top
+	marker := &Frame{caller: saved}
+	gr.top = marker
+	in.pushFrame(gr, initFn, nil, nil, nil)
+	for gr.top != marker {
+		in.step(gr)
+	}
+	gr.top = saved
+	in.initMode = savedMode
+}
+
 func (in *Interp) global(g *ssa.Global) *Value {
+	if p, ok := in.globals[g]; ok {
+		return p
+	}
+	in.ensurePkgInit(g)
 	if p, ok := in.globals[g]; ok {
 		return p
 	}
@@ -266,10 +311,36 @@ func (in *Interp) callValue(g *G, fr *Frame, fnv Value, args []Value, dst ssa.Va
 	case *Closure:
 		if ix := in.lookupIntrinsic(f.Fn); ix != nil {
 			res, ok := ix.F(in, fr, args)
-			return res, true, ok
+			if res.K != KInvalid || res.R != interface{}(fallThrough) {
+				return res, true, ok
+			}
+			// the intrinsic declined (e.g. all arguments concrete): interpret the real function
 		}
-		if in.initMode && !strings.HasPrefix(fnPkgPath(f.Fn), "berty.tech/go-ipfs-log") {
-			// package initialisers do not run external code: the result is poison (INCONCLUSIVE if ever used)
+		if in.initMode && !in.inInitTry && !strings.HasPrefix(fnPkgPath(f.Fn), "berty.tech/go-ipfs-log") {
+			// package initialisers: external code is interpreted when possible (e.g. lru.New, list.New);
+			// whatever cannot be executed yields poison (INCONCLUSIVE only if the value is ever used)
+			if f.Fn.Blocks != nil || func() bool { in.lookupIntrinsic(f.Fn); return f.Fn.Blocks != nil }() {
+				var out Value
+				okTry := func() (ok bool) {
+					in.inInitTry = true
+					saved := g.top
+					defer func() {
+						in.inInitTry = false
+						if r := recover(); r != nil {
+							if _, isAbort := r.(abortPath); isAbort {
+								panic(r)
+							}
+							g.top = saved // unsupported / engine limitation inside external init code: poison
+							ok = false
+						}
+					}()
+					out = in.CallSync(fnv, args)
+					return true
+				}()
+				if okTry {
+					return out, true, true
+				}
+			}
 			res := f.Fn.Signature.Results()
 			switch res.Len() {
 			case 0:
@@ -571,12 +642,8 @@ func (in *Interp) step(g *G) {
 			return
 		}
 		k := in.get(fr, ins.Key)
-		ks, ok := keyOf(k)
-		if !ok {
-			unsupported("symbolic map key")
-		}
 		in.raceAccess(m.R.(*MapV), true)
-		m.R.(*MapV).set(ks, k, copyVal(in.get(fr, ins.Value)))
+		in.mapSet(g, m.R.(*MapV), k, copyVal(in.get(fr, ins.Value)))
 	case *ssa.TypeAssert:
 		in.typeAssert(g, fr, ins)
 	case *ssa.MakeClosure:
@@ -630,6 +697,9 @@ func (in *Interp) prepareCall(g *G, fr *Frame, call *ssa.CallCommon) (Value, []V
 func (in *Interp) methodOf(t types.Type, m *types.Func) Value {
 	if t == ctxType {
 		return in.ctxMethod(m.Name())
+	}
+	if t == keyType {
+		return in.keyMethod(m.Name())
 	}
 	if t == errType {
 		return Value{K: KFunc, R: &Intrinsic{Name: "opaqueError." + m.Name(), F: func(in *Interp, fr *Frame, args []Value) (Value, bool) {
